@@ -6,7 +6,7 @@ HERE = os.path.dirname(os.path.dirname(os.path.abspath(__file__)))
 CHECKS = {
  "C01": dict(
    category="exploration",
-   text="Runtime monitoring of the real x86 assembler (ASan+UBSan build, strict validation): every database form x mode x systematic operand/prefix/decoration variants (1.3e5 emits quick, ~2e6 thorough) judged by three monitors: our field-level decoder applying the database's encoding rule to the case, GNU objdump's reading of AsmJit's bytes vs. its reading of the same instruction assembled by llvm-mc, and instruction-length agreement of objdump/LLVM. Held on the cases emitted; forms unknown to both decoders get the database-rule verdict only.",
+   text="Runtime monitoring of the real x86 assembler (ASan+UBSan build, strict validation): every database form x mode x systematic operand/prefix/decoration variants (1.3e5 emits quick, ~2e6 thorough) judged by three monitors: our field-level decoder applying the database's encoding rule to the case, GNU objdump's reading of AsmJit's bytes vs. its reading of the same instruction assembled by llvm-mc, and instruction-length agreement of objdump/LLVM. Held on the cases emitted; forms unknown to both decoders get the database-rule verdict only. String / implicit-memory forms get valid variants with every segment override and the other address size; 64-bit absolute addresses include unsigned 32-bit values with bit 31 set.",
    design_ref="DESIGN.md section 2, C01", note="Trusts objdump 2.40, LLVM 14, vlib/xdec.py and vlib/x86text.py (harness). UBSan shift-base disabled (arithmetic shifts of negatives are defined behaviour for the compilers/standard the tree targets).",
    technique="sanitizer build + differential decoding against independent assembler/decoders + database-rule decoder"),
  "C08": dict(category="exploration",
@@ -21,7 +21,7 @@ CHECKS = {
    technique="sanitizer build + reference-model monitor over operation histories + invariant hook"),
  "C13": dict(
    category="exploration",
-   text="Runtime monitoring over the public API: every database form in allowed and excluded modes plus near-miss mutations, each validated directly, emitted with and without strict validation; verdicts and bytes compared; vendored list of forms accepted by the pinned release; name round trip over all ids of x86/x64/AArch64 and every alias spelling.",
+   text="Runtime monitoring over the public API: every database form in allowed and excluded modes plus near-miss mutations, each validated directly, emitted with and without strict validation; verdicts and bytes compared; vendored list of forms accepted by the pinned release; name round trip over all ids of x86/x64/AArch64 and every alias spelling. Every case also runs through ONE assembler that is detached and re-attached whenever the mode changes (same verdict and bytes required); AArch64: the 30k valid variants of the database forms that the pinned release encodes are vendored and must still be encoded; the 4167 typed emitter methods of both emitter headers are compiled into a table against the tree and the id behind each must carry the method's name.",
    design_ref="DESIGN.md section 2, C13", note="AArch64 has no operand validator: only its names are judged here. 'Implemented' = vendor/implemented_x86.json generated from the pinned tree.",
    technique="differential monitoring of validator vs. encoder verdicts under sanitizers"),
  "C16": dict(category="exploration",
@@ -51,7 +51,7 @@ CHECKS.update({
    design_ref="DESIGN.md section 2, C03", note="AArch64 and x86-32 are judged statically (no execution); +-2 GiB inside one section only in the thorough tier.",
    technique="sanitizer build + reference-position monitor over label programs + native execution traces"),
  "C04": dict(category="exploration",
-   text="Runtime monitoring: programs with absolute references relocated to 12 base-address classes, built once with the base known at init and once relocated afterwards; our evaluator walks the flattened image (abs fields, rel32 sites, address-table slots) and compares designated targets with expected ones; JitRuntime::add images are compared with an independent relocation and the code is called natively, reaching C functions > 2 GiB away through .addrtab.",
+   text="Runtime monitoring: programs with absolute references relocated to 12 base-address classes, built once with the base known at init and once relocated afterwards; our evaluator walks the flattened image (abs fields, rel32 sites, address-table slots) and compares designated targets with expected ones; JitRuntime::add images are compared with an independent relocation and the code is called natively, reaching C functions > 2 GiB away through .addrtab. The JitRuntime pipeline alternates between a default and a dual-mapping runtime (rx != rw).",
    design_ref="DESIGN.md section 2, C04", note="Native calls on x86-64 only; other architectures evaluated on the image.",
    technique="sanitizer build + relocation evaluator monitor + native calls through the address table"),
  "C05": dict(category="exploration",
@@ -71,11 +71,11 @@ CHECKS.update({
    design_ref="DESIGN.md section 2, C10", note="Alignment demanded of non-empty sections only; order checked between sections with different order values.",
    technique="sanitizer build + reference layout monitor + guard-banded destination buffers"),
  "C11": dict(category="exploration",
-   text="Runtime monitoring with gcc ThreadSanitizer (6 repetitions quick, 50 thorough; 2..16 threads on one JitAllocator and one JitRuntime plus a thread walking hook H2, and threads generating code with private objects whose bytes are compared with the single-threaded result) and the same workload under ASan with the C09 content/overlap oracle; TSan reports de-duplicated by outermost asmjit frame pair; evidence lists the (op, op) pairs observed overlapping in time.",
+   text="Runtime monitoring with gcc ThreadSanitizer (6 repetitions quick, 50 thorough; 2..16 threads on one JitAllocator and one JitRuntime plus a thread walking hook H2, and threads generating code with private objects whose bytes are compared with the single-threaded result) and the same workload under ASan with the C09 content/overlap oracle; TSan reports de-duplicated by outermost asmjit frame pair; evidence lists the (op, op) pairs observed overlapping in time. Additionally 400 (quick) fresh processes race the FIRST CpuInfo::host()/JitRuntime construction of 2-8 threads: every thread must see the complete host description.",
    design_ref="DESIGN.md section 2, C11", note="TSan sees only interleavings that occur; host information is initialised on the main thread first (the property's precondition).",
    technique="ThreadSanitizer + concurrent history monitor (interval set, owner stamps, hook H2)"),
  "C12": dict(category="exploration",
-   text="Runtime monitoring by native execution: every host-executable x86-64 database form x several register assignments x random full machine images (GP, RFLAGS, x87/MMX, ZMM0-31, k0-7, guard-banded memory) is assembled by x86::Assembler and run between a state-load prologue and state-store epilogue; every changed byte/flag must be covered by InstAPI::query_rw_info (written operands, byte masks, zero extension, memory, flags); state reported as not read is perturbed and the instruction re-run (defined results identical); kRegMem/rm_size replacement forms are validated, assembled and executed for equal results; reported features vs host CPUID/SIGILL and the database ext; consecutive-register runs on x86 and AArch64 register lists; API answers vs the database record for every form under ASan, and the generated tables re-derived with the repository's tablegen on a scratch copy and compared.",
+   text="Runtime monitoring by native execution: every host-executable x86-64 database form x several register assignments x random full machine images (GP, RFLAGS, x87/MMX, ZMM0-31, k0-7, guard-banded memory) is assembled by x86::Assembler and run between a state-load prologue and state-store epilogue; every changed byte/flag must be covered by InstAPI::query_rw_info (written operands, byte masks, zero extension, memory, flags); state reported as not read is perturbed and the instruction re-run (defined results identical); kRegMem/rm_size replacement forms are validated, assembled and executed for equal results; reported features vs host CPUID/SIGILL and the database ext; consecutive-register runs on x86 and AArch64 register lists; API answers vs the database record for every form under ASan, and the generated tables re-derived with the repository's tablegen on a scratch copy and compared. Every query is repeated into InstRWInfo objects pre-filled with 0xFF/0xA5 (the answer must not depend on the previous content); EVEX forms are additionally queried with one vector operand at id 16/31 and no {evex} hint.",
    design_ref="DESIGN.md section 2, C12", note="Execution oracle covers only forms the sandbox CPU executes in ring 3 (others: table/database comparison only); undefined flags per the database are not judged.",
    technique="native-execution state-diff monitor + sanitizer build + generated-table differential"),
  "C14": dict(category="exploration",
@@ -83,7 +83,7 @@ CHECKS.update({
    design_ref="DESIGN.md section 2, C14", note="Arbitrary operand kinds on x86 only (AArch64 has no operand validator); on AArch64 every database form keeps its operand kinds and all ids, lanes, shifts, extends, immediates and offsets are perturbed out of range (21k unencodable cases per quick run, LLVM as the referee for the marking) and must be refused without residue.",
    technique="sanitizer build + state-delta monitor at the API boundary + probe-program differential"),
  "C15": dict(category="fault_enumeration",
-   text="Fault enumeration by runtime injection: for 20 workloads (assemble, build, compile on x86-64/x86-32/AArch64, JitRuntime::add incl. dual mapping and the shm fallback, containers, const pool, strings) every k-th arena request (hook H1), heap request (--wrap malloc/realloc/calloc) and virtual-memory request (--wrap mmap/ftruncate/shm_open/memfd) fails once, stickily, and twice at the same call site; each armed run executes in a forked worker under ASan+UBSan+LSan; the API must report an error or produce the clean output, a retry on the same objects must reproduce the clean bytes, and malloc/mmap/fd balances must return to the pre-case level.",
+   text="Fault enumeration by runtime injection: for 20 workloads (assemble, build, compile on x86-64/x86-32/AArch64, JitRuntime::add incl. dual mapping and the shm fallback, containers, const pool, strings) every k-th arena request (hook H1), heap request (--wrap malloc/realloc/calloc) and virtual-memory request (--wrap mmap/ftruncate/shm_open/memfd) fails once, stickily, and twice at the same call site; each armed run executes in a forked worker under ASan+UBSan+LSan; the API must report an error or produce the clean output, a retry on the same objects must reproduce the clean bytes, and malloc/mmap/fd balances must return to the pre-case level. Workloads with one-shot instruction state ({k}, {z}, rep, lock, options, inline comments) also run in a continue mode (the refused call is skipped, the result must equal a failure-free run without it) and one-shot state must be clear after every refused emit.",
    design_ref="DESIGN.md section 2, C15", note="Exhaustive over k for these workloads and failure modes only; multi-failure patterns beyond 'twin' are random (thorough).",
    technique="fault injection at allocation hooks + sanitizers + retry/leak oracle"),
  "C19": dict(category="exploration",
